@@ -6,6 +6,7 @@ import (
 	"fmt"
 	"log"
 	"strings"
+	"sync"
 	"time"
 
 	"github.com/nats-io/nats.go"
@@ -39,6 +40,11 @@ type Store struct {
 	chStop        chan struct{}
 	chStopMetrics chan struct{}
 	chWaitStart   chan struct{}
+
+	// handlers hold handlerLock (read) while they use the db, Run takes it
+	// (write) before closing the db
+	handlerLock sync.RWMutex
+	stopped     bool
 }
 
 // Params are used to configure a store
@@ -157,9 +163,27 @@ done:
 		}
 	}
 
+	// wait for handlers that are still running, and turn away any that
+	// start now, before the db goes away
+	st.handlerLock.Lock()
+	st.stopped = true
+	st.handlerLock.Unlock()
+
 	st.db.Close()
 
 	return nil
+}
+
+// handlerStart is called at the start of every handler that uses the db.
+// If it returns true, the handler must call handlerLock.RUnlock when done.
+func (st *Store) handlerStart() bool {
+	st.handlerLock.RLock()
+	if st.stopped {
+		st.handlerLock.RUnlock()
+		return false
+	}
+
+	return true
 }
 
 // Stop the store
@@ -243,6 +267,11 @@ func (st *Store) StopMetrics(_ error) {
 }
 
 func (st *Store) handleNodePoints(msg *nats.Msg) {
+	if !st.handlerStart() {
+		return
+	}
+	defer st.handlerLock.RUnlock()
+
 	start := time.Now()
 	defer func() {
 		t := time.Since(start).Milliseconds()
@@ -283,6 +312,11 @@ func (st *Store) handleNodePoints(msg *nats.Msg) {
 }
 
 func (st *Store) handleEdgePoints(msg *nats.Msg) {
+	if !st.handlerStart() {
+		return
+	}
+	defer st.handlerLock.RUnlock()
+
 	start := time.Now()
 	defer func() {
 		t := time.Since(start).Milliseconds()
@@ -325,6 +359,11 @@ func (st *Store) handleEdgePoints(msg *nats.Msg) {
 }
 
 func (st *Store) handleNodesRequest(msg *nats.Msg) {
+	if !st.handlerStart() {
+		return
+	}
+	defer st.handlerLock.RUnlock()
+
 	start := time.Now()
 	defer func() {
 		t := time.Since(start).Milliseconds()
@@ -398,6 +437,11 @@ handleNodeDone:
 
 // TODO, maybe someday we should return error node instead of no data
 func (st *Store) handleAuthUser(msg *nats.Msg) {
+	if !st.handlerStart() {
+		return
+	}
+	defer st.handlerLock.RUnlock()
+
 	var points data.Points
 	var err error
 	resp := &pb.NodesRequest{}
@@ -496,6 +540,11 @@ func (st *Store) handleAuthGetNatsURI(msg *nats.Msg) {
 }
 
 func (st *Store) handleStoreVerify(msg *nats.Msg) {
+	if !st.handlerStart() {
+		return
+	}
+	defer st.handlerLock.RUnlock()
+
 	var ret string
 	hashErr := st.db.verifyNodeHashes(false)
 	if hashErr != nil {
@@ -509,6 +558,11 @@ func (st *Store) handleStoreVerify(msg *nats.Msg) {
 }
 
 func (st *Store) handleStoreMaint(msg *nats.Msg) {
+	if !st.handlerStart() {
+		return
+	}
+	defer st.handlerLock.RUnlock()
+
 	var ret string
 	hashErr := st.db.verifyNodeHashes(true)
 	if hashErr != nil {
